@@ -864,7 +864,7 @@ theorem Res_not_panicked {r : Res} (h : r = .ok ∨ r = .panicked) (hb : (r == .
   · subst h; simp at hb
 
 theorem stepLive_inv (hm : MonoTime c) {s : Sys} (o : Op) (hi : Inv c s) (hg : GoodOp c o)
-    (hd : s.dead = false ∨ (∃ h, o = .grow h) ∨ o = .restart) : Inv c (stepLive c s o).1 := by
+    (hd : s.dead = false ∨ (∃ h, o = .grow h) ∨ o = .restart ∨ o = .replay) : Inv c (stepLive c s o).1 := by
   cases o with
   | grow h =>
     simp only [stepLive]
@@ -874,12 +874,12 @@ theorem stepLive_inv (hm : MonoTime c) {s : Sys} (o : Op) (hi : Inv c s) (hg : G
       exact ⟨PoolInv_mono c hcg.1 hi.pool, hi.fresh⟩
     · exact hi
   | add e =>
-    have hdd : s.dead = false := by rcases hd with h | ⟨_, h⟩ | h <;> first | exact h | cases h
+    have hdd : s.dead = false := by rcases hd with h | ⟨_, h⟩ | h | h <;> first | exact h | cases h
     have hk := addEvidence_keeps c e hi.pool
     simp only [stepLive]
     exact ⟨hk.inv, fun _ hl => hk.fresh (hi.fresh hdd (Nat.lt_of_le_of_lt hk.len hl))⟩
   | check l =>
-    have hdd : s.dead = false := by rcases hd with h | ⟨_, h⟩ | h <;> first | exact h | cases h
+    have hdd : s.dead = false := by rcases hd with h | ⟨_, h⟩ | h | h <;> first | exact h | cases h
     have hk := checkLoop_keeps c l s.pool [] hi.pool
     simp only [stepLive]
     exact ⟨hk.inv, fun _ hl => hk.fresh (hi.fresh hdd (Nat.lt_of_le_of_lt hk.len hl))⟩
@@ -902,8 +902,25 @@ theorem stepLive_inv (hm : MonoTime c) {s : Sys} (o : Op) (hi : Inv c s) (hg : G
     · subst hpr; exact hg
   | restart =>
     simp only [stepLive]
-    obtain ⟨h1, h2, _⟩ := newPool_spec c hm (stateAt c s.storeH) hi.pool
+    obtain ⟨h1, h2, _⟩ := newPool_spec c hm (stateAt c s.stateH) hi.pool
     exact ⟨h1, fun _ _ => h2⟩
+  | saveBlock h =>
+    simp only [stepLive]
+    split
+    · rename_i hcg
+      simp [canGrow] at hcg
+      exact ⟨PoolInv_mono c hcg.1 hi.pool, hi.fresh⟩
+    · exact hi
+  | saveState h =>
+    simp only [stepLive]
+    split
+    · exact ⟨hi.pool, hi.fresh⟩
+    · exact hi
+  | replay =>
+    simp only [stepLive]
+    split
+    · exact ⟨hi.pool, hi.fresh⟩
+    · exact hi
 
 theorem step_inv (hm : MonoTime c) {s : Sys} (o : Op) (hi : Inv c s) (hg : GoodOp c o) :
     Inv c (step c s o).1 := by
@@ -912,12 +929,15 @@ theorem step_inv (hm : MonoTime c) {s : Sys} (o : Op) (hi : Inv c s) (hg : GoodO
   | false => exact stepLive_inv c hm o hi hg (Or.inl hd)
   | true =>
     cases o with
-    | restart => exact stepLive_inv c hm _ hi hg (Or.inr (Or.inr rfl))
+    | restart => exact stepLive_inv c hm _ hi hg (Or.inr (Or.inr (Or.inl rfl)))
     | grow h => exact stepLive_inv c hm _ hi hg (Or.inr (Or.inl ⟨h, rfl⟩))
+    | replay => exact stepLive_inv c hm _ hi hg (Or.inr (Or.inr (Or.inr rfl)))
     | add e => exact hi
     | check l => exact hi
     | update h evs => exact hi
     | report v1 v2 => exact hi
+    | saveBlock h => exact hi
+    | saveState h => exact hi
 
 /-- states reachable from a fresh pool by any sequence of operations, consensus reporting genuine
 vote pairs -/
